@@ -3,12 +3,15 @@ SPEC = {
     "bins": [
         {"name": "c16", "pkg": "./zz_verif/c16", "run": ".", "shards": {"quick": 1, "thorough": 16}},
         {"name": "c16wb-qndleq", "pkg": "./zk/qndleq", "run": "^TestC16WB", "whitebox": True, "shards": {"quick": 1, "thorough": 2}},
+        {"name": "c16wb-dl", "pkg": "./zk/dl", "run": "^TestC16WB", "whitebox": True, "shards": {"quick": 1, "thorough": 2}},
     ],
     "rule": "case = one rapid-drawn tuple per sub-check. oprf: (suite in 4, mode in 3, key from DeriveKey(seed,info) / GenerateKey(reader) / "
             "an unmarshalled edge scalar, batch of 1..5 inputs of lengths {0,1,100,1000,random}, info, two explicit blind vectors) plus 2..4 "
             "single-component alterations in the verifiable modes; dleq: (group, hash, DST, k, A, batch of 1..4 B_i, prover randomness), 2..4 "
-            "alterations and one statement false by construction with up to 11 candidate proofs; dl: (group, G, k, userID, otherInfo, reader), 3..5 "
-            "alterations and up to 8 witness-free proofs; qndleq: (two safe primes from a committed pool of 14, squares g and h, exponent, security "
+            "alterations, one statement false by construction with up to 11 candidate proofs and, at every batch position, the false statement "
+            "B_j = identity, kB_j != identity with 5 candidate proofs; oprf verifiable modes also run a zero blind through DeterministicBlind and replace that evaluated element; dl: (group, G, k, userID, otherInfo, reader), 3..5 "
+            "alterations, up to 8 witness-free proofs and 3 proofs that re-solve the verification equation for A or G with the honest challenge "
+            "(recovered from the re-drawn nonce; white-box: calcChallenge with a dummy in place of A, G or V); qndleq: (two safe primes from a committed pool of 14, squares g and h, exponent, security "
             "parameter), 3..5 alterations, one false statement with 26..27 candidate proofs and one statement whose gx and hx are both non-units (0, N, p, q, k·p) with 27 candidate proofs incl. C recomputed for degenerate commitments (black-box through a replica of the challenge calibrated on the honest proof; white-box through doChallenge); simot: (group, choice bit, equal-length message pair). "
             "non-trivial = the evaluated case contains an alteration, a false statement, a degenerate/forged proof, a second blind vector, or an OT "
             "run with swapped ciphertexts (honest-only evaluations are counted as evaluations but not as non-trivial); distinct by FNV-64 of "
